@@ -94,6 +94,7 @@ Op gen_hmac(Ctx &c, GHmac &g, int obj, bool erase_bias) {
         o = mk(M_ONESHOT, obj);
         o.a = hmac_keylen(r); o.b = r.chance(1, 3) ? hash_update_len(r, 64) : small_len(r); o.c = r.below(64); o.dseed = ds(r);
         if (o.a == 0 && r.chance(1, 2)) o.flags |= F_NULLPTR;
+        if (r.chance(1, 5)) o.flags |= F_INPLACE;
         return o;
     }
     x = r.below(100);
@@ -188,6 +189,7 @@ Op gen_hkdf(Ctx &c, GHkdf &g, int obj, bool erase_bias) {
             else if (y < 92) len = 33 + r.below(68);
             else len = 100 + r.below(400);
         }
+        if (r.chance(1, 150)) { static const size_t HUGE[] = {65535, 65536, 65537, 65636, 70000, 73696, 131072, 1000000}; len = HUGE[r.below(8)]; }   // 16-bit corners of the request length
         o.a = len; o.b = r.below(64);
         g.cur = std::min<size_t>(8160, g.cur + len);
         break;
@@ -259,6 +261,7 @@ Op gen_prng(Ctx &c, GPrng &g, int obj, bool erase_bias, bool sys_only) {
         else o = mk(P_FREE, obj);
     }
     o.dseed = ds(r);
+    if ((c.armed == C15 || c.armed == C17) && g.st == ST_LIVE && r.chance(1, 60)) o.flags |= F_FORK;   // the object is now used from a forked child
     switch (o.kind) {
     case P_INIT: {
         uint32_t y = r.below(100);
@@ -348,6 +351,7 @@ Op gen_clean(Ctx &c) {
     else if (y < 94) o.b = r.below(301);
     else { static const size_t BS[] = {511, 512, 513, 1023, 1024, 1025, 4095, 4096, 4097, 8000}; o.b = r.chance(1, 2) ? BS[r.below(10)] : 301 + r.below(7800); }
     o.dseed = ds(r);
+    if (r.chance(1, 7)) { o.flags |= F_BOUNDARY; o.c = r.below(5); o.a = r.below(3); if (o.b > 4000) o.b = 4000; }
     return o;
 }
 
@@ -449,6 +453,7 @@ static Plan trng_baseline_plan(uint64_t idx) {
     p.tasks.push_back(tp);
     p.seed = idx; p.arena_seed = mix2(idx, 1) | 1; p.paint_seed = mix2(idx, 2) | 1;
     p.os_stale_errno = (idx & 1); p.os_scribble = (idx & 2) != 0; p.fd_base = (int)(idx % 5);
+    p.os_echo = (idx % 3) == 0; p.sleep_interrupt = (idx % 2) == 0; p.clock_step_ns = (idx % 4 == 0) ? 0 : (idx % 4 == 1) ? 1000000ULL : (idx % 4 == 2) ? 1000000000ULL : 60000000000ULL;
     return p;
 }
 
@@ -501,6 +506,9 @@ Plan generate_plan(const std::string &engine, int armed, uint64_t seed, bool tho
     if (armed == C17 || armed == C18 || armed == C16) c.faults = r.chance(4, 5);
     p.os_stale_errno = r.chance(1, 3);
     p.os_scribble = r.chance(1, 3);
+    p.os_echo = r.chance(1, 4);
+    p.sleep_interrupt = r.chance(1, 2);
+    { static const uint64_t STEP[] = {0, 1000ULL, 1000000ULL, 1000000000ULL, 60000000000ULL}; p.clock_step_ns = STEP[r.below(5)]; }
     p.fd_base = r.chance(1, 3) ? (int)r.below(3) : 3 + (int)r.below(60);   // open() may hand out 0, 1 or 2 when stdio is closed
     if (engine == "mix") p.alloc_fail = r.chance(1, 10);
     for (int ti = 0; ti < ntasks; ti++) {
@@ -521,8 +529,10 @@ Plan generate_plan(const std::string &engine, int armed, uint64_t seed, bool tho
                     else if (x < 42) o = gen_hmac(c, gm[obj], obj, true);
                     else if (x < 58) o = gen_hkdf(c, gk[obj], obj, true);
                     else if (x < 78) o = gen_prng(c, gp[obj], obj, true, false);
-                    else o = gen_clean(c);
+                    else if (x < 96) o = gen_clean(c);
+                    else { o = mk(H_ONESHOT, 0); o.a = small_len(r) % 300; o.b = r.below(8); o.dseed = ds(r); }
                     if (o.kind == K_ONESHOT && o.a > 600) o.a = 8161;
+                    if (o.kind == K_EXPAND && o.a > 60000) o.a = 8200;
                 }
             } else if (engine == "prng") {
                 o = gen_prng(c, gp[obj], obj, false, false);
@@ -547,6 +557,19 @@ Plan generate_plan(const std::string &engine, int armed, uint64_t seed, bool tho
             }
             tp.ops.push_back(o);
         }
+        p.tasks.push_back(tp);
+    }
+    // rarely: a long run of bare extracts between two ordinary objects (any per-process serial number of 8 or 16 bits wraps)
+    if (engine == "stream" && armed == C13 && r.chance(1, thorough ? 2500 : 9000)) {
+        TaskPlan tp;
+        Op e0 = mk(K_EXTRACT, 0); e0.a = 16; e0.b = 8; e0.c = 5; e0.dseed = ds(r); tp.ops.push_back(e0);
+        Op x0 = mk(K_EXPAND, 0); x0.a = 32; x0.dseed = ds(r); tp.ops.push_back(x0);
+        static const uint64_t W[] = {253, 254, 255, 256, 65533, 65534, 65535, 65536};
+        Op e1 = mk(K_EXTRACT, 1); e1.a = 7; e1.b = 3; e1.d = W[r.below(8)] - 1; e1.dseed = ds(r); tp.ops.push_back(e1);
+        Op e2 = mk(K_EXTRACT, 2); e2.a = 20; e2.b = 4; e2.c = 9; e2.dseed = ds(r); tp.ops.push_back(e2);
+        Op x2 = mk(K_EXPAND, 2); x2.a = 64; x2.dseed = ds(r); tp.ops.push_back(x2);
+        Op x3 = mk(K_EXPAND, 0); x3.a = 40; x3.dseed = ds(r); tp.ops.push_back(x3);
+        p.tasks.clear();
         p.tasks.push_back(tp);
     }
     // thorough tier, rarely: one generator is driven past 1 MiB with the limit set above the 1 MiB cap
